@@ -118,7 +118,11 @@ impl Interpreter {
         let new_state = match script_bits.get(index) {
             Some(v) => match Interpreter::match_script_bit(self, v) {
                 Ok(v) => v,
-                Err(e) => return Some(Err(e)),
+                Err(e) => {
+                    // The script has failed and nothing more of it runs: the error is reported once and the iteration ends
+                    self.script_index = self.script_bits.len();
+                    return Some(Err(e));
+                }
             },
             None => {
                 self.state.status = Status::Finished;
